@@ -88,12 +88,34 @@ func catalogue(w *world, check string) []kase {
 					}
 				}
 			}
+			// equivocation: a broadcast altered for ONE recipient only (the others receive the original)
+			if check != "C05" && s.Broadcast && len(w.spec.IDs) >= 3 {
+				for _, rcp := range w.spec.IDs {
+					if rcp == d {
+						continue
+					}
+					es := s
+					es.To = rcp
+					for _, nd := range faults.Walk(tree) {
+						ops := faults.SemanticOps(tree, nd, ctx)
+						for _, pref := range []string{"bit-flip", "sc-plus1", "pt-negate", "int-flip-mid", "other-party"} {
+							if v, ok := ops[pref]; ok {
+								mut := faults.Mut{Path: nd.Path, Op: pref + "@one-recipient"}
+								out = append(out, kase{Scenario: w.sc, Deviator: d, Slot: es, Path: nd.Path, Op: mut.Op, Menu: menu,
+									fault: faults.ContentFault(es, mut, v, mode)})
+								break
+							}
+						}
+					}
+				}
+			}
 			// whole-message operators
 			for _, mf := range messageOps(w, s, m, check) {
 				out = append(out, kase{Scenario: w.sc, Deviator: d, Slot: s, Path: "<message>", Op: mf.Mut.Op, Menu: menu, fault: mf})
 			}
 		}
 	}
+	out = append(out, specialCases(w, check)...)
 	if check == "C04" && (vkitThorough() || w.sc.Cost < 2) {
 		out = append(out, stateCases(w, deviators)...)
 	}
